@@ -478,9 +478,60 @@ fn one(id: String, seed: u64, cat: &Catalogue, rng: &mut SplitMix64, sink: &mut 
     sink.emit(g.h);
 }
 
+/// The whole printable ASCII table as sibling names: one file per character that is valid in a long name and is not an
+/// upper-case letter (`n<c>m`, content = the character), in one directory. Two ASCII names that differ in one
+/// non-letter character are different names in EVERY build; a build whose case folding identifies two of them (e.g.
+/// folds `{` onto `[`) opens the existing file instead of creating the second one, and the listing and the contents
+/// differ from the other builds. Then every name is opened again and read, and the bit-5 partners that are NOT
+/// letters are looked up under the partner's spelling with the letters' case flipped.
+fn ascii_table(id: String, seed: u64, cat: &Catalogue, rng: &mut SplitMix64, sink: &mut Sink) {
+    let vol = loop {
+        let v = cat.pick_small_cluster(rng, 4096);
+        if v.class != VolClass::Tiny && (v.bits == 32 || v.root_entries >= 112) {
+            break v;
+        }
+    };
+    let mut cfg = Cfg::new(true, false, ClockMode::Const);
+    cfg.alloc = true;
+    cfg.unicode = true;
+    let mut h = History::new(id, "feat", seed, vol.dev_size, cfg);
+    h.op(Op::Format(vol.fmt.clone()));
+    h.op(Op::Mount);
+    h.op(Op::CreateDir { d: 0, path: b"t".to_vec(), new: 1 });
+    h.op(Op::DropD(1));
+    let chars: Vec<char> = (0x20u8..0x7F)
+        .map(|b| b as char)
+        .filter(|c| !c.is_ascii_uppercase() && valid_name(&format!("n{}m", c)))
+        .collect();
+    let mut f = 0u32;
+    for c in &chars {
+        f += 1;
+        h.op(Op::CreateFile { d: 0, path: format!("t/n{}m", c).into_bytes(), new: f });
+        h.op(Op::WriteAll { f, data: vec![*c as u8] });
+        h.op(Op::DropF(f));
+    }
+    h.op(Op::OpenDir { d: 0, path: b"t".to_vec(), new: 2 });
+    h.op(Op::List(2));
+    h.op(Op::DropD(2));
+    for c in &chars {
+        f += 1;
+        // the same name with the letters' case flipped: must be the same file in every build
+        h.op(Op::OpenFile { d: 0, path: format!("T/N{}M", c.to_ascii_uppercase()).into_bytes(), new: f });
+        h.op(Op::ReadAll(f));
+        h.op(Op::DropF(f));
+    }
+    h.op(Op::Stats);
+    h.op(Op::Unmount);
+    sink.emit(h);
+}
+
 pub fn run(tier: Tier, seed: u64, rng: &mut SplitMix64, n_override: Option<u64>, sink: &mut Sink) {
     let cat = Catalogue::build();
     let n = tier_count(tier, n_override, 300, 6000);
+    {
+        let mut r = rng.fork();
+        ascii_table(hist_id("feat", seed, 0), seed, &cat, &mut r, sink);
+    }
     for i in 1..=n {
         let mut r = rng.fork();
         one(hist_id("feat", seed, i), seed, &cat, &mut r, sink);
